@@ -697,7 +697,7 @@ func rpcAgreement(c *Ctx, id string) {
 				}
 				return ""
 			}
-			if len(ns) != 1 || avString(ns[0].Args[0]) != "followerClient" || avString(ns[0].Args[1]) != pl+".Identity.Name" || avString(ns[0].Args[2]) != "?int "+pl+".Identity.ClusterJoinTime" {
+			if len(ns) != 1 || (avString(ns[0].Args[0]) != "followerClient" && avString(w.avThroughLayers(ns[0].Args[0])) != "followerClient") || avString(ns[0].Args[1]) != pl+".Identity.Name" || avString(ns[0].Args[2]) != "?int "+pl+".Identity.ClusterJoinTime" {
 				return fmt.Sprintf("the follower's record is built from %v (expected its client, name and join time)", ns)
 			}
 			if len(adds) != 1 || avString(adds[0].Args[0]) != "&followerService" || !e.isNil {
